@@ -425,6 +425,10 @@ def run(pm, ctx):
     run_decisions(pm, ctx, 'C09-RD', OWN['C09'])
     from .. import exprdrift
     exprdrift.run(pm, ctx, 'C09-RE', OWN['C09'])
+    from ..conddrift import run_calls
+    run_calls(pm, ctx, 'C09-RC', OWN['C09'])
+    from .. import memo
+    memo.run(pm, ctx, 'C09-MK', OWN['C09'])
     ctx.import_rules(pm, 'C10', {'C10-R5'}, 'C09-R8',
                      'default values are emitted with the generated class and tag names (shared with '
                      'C10-R5)')
